@@ -669,6 +669,10 @@ func (e *Exec) runBlock(bi int) {
 				e.awardedNow[acctKey(a)] = true
 			}
 		}
+		if exp != nil && exp.ExpectHalt == "" && preBB != nil && preBB.PosSquatted {
+			// observation O1 (no listed property): the chain halts at the next fee distribution; nothing this block owes is blamed
+			exp.ExpectHalt = "pos-module-address-squatted"
+		}
 		if exp != nil && exp.ExpectHalt == "" {
 			if a, ok := exp.AwardsMinted[AcctPool]; ok {
 				// an award to the staked pool's own address stays there without being anybody's stake
